@@ -23,7 +23,7 @@ impl Property for C11 {
          oracle = objective evaluated exactly on ALL 2^n assignments + multilinear reduction (unique representation); non-trivial = n>=3 and (a monomial with a repeated id or a cancelling pair); distinct = sha256(instance, mode)"
     }
     fn required_labels(&self) -> Vec<String> {
-        ["x^2", "cancel", "deg>2-collapses-to-pair", "refusal=constraint", "refusal=maximize", "refusal=non-binary", "refusal=qubo-3-distinct", "refusal=qubo-3-distinct-with-a-repeated-id", "format=pubo", "format=qubo", "regime=general", "regime=dyadic", "removed-constraint-present", "objective-absent", "unused-non-binary-variable", "non-binary-variable-in-removed-constraint", "id=u64::MAX", "objective-absent+refusal", "largest-id-at-word-boundary", "sweep=many-raw-terms", "sweep=full-symmetric-matrix", "refusal=constraint-with-zero-function", "shuffled-variable-list", "recorded-parameter-id-is-a-binary-id"].iter().map(|s| s.to_string()).collect()
+        ["x^2", "binary-with-recorded-value", "cancel", "deg>2-collapses-to-pair", "refusal=constraint", "refusal=maximize", "refusal=non-binary", "refusal=qubo-3-distinct", "refusal=qubo-3-distinct-with-a-repeated-id", "format=pubo", "format=qubo", "regime=general", "regime=dyadic", "removed-constraint-present", "objective-absent", "unused-non-binary-variable", "non-binary-variable-in-removed-constraint", "id=u64::MAX", "objective-absent+refusal", "largest-id-at-word-boundary", "sweep=many-raw-terms", "sweep=full-symmetric-matrix", "refusal=constraint-with-zero-function", "shuffled-variable-list", "recorded-parameter-id-is-a-binary-id"].iter().map(|s| s.to_string()).collect()
     }
     fn cases(&self, tier: Tier) -> usize {
         match tier {
@@ -341,6 +341,18 @@ impl Property for C11 {
                 }
             }
             _ => {}
+        }
+        // a binary fixed earlier (partial_evaluate records the value) that a later substitution brought back into the
+        // objective: it is still a binary variable the objective uses
+        if t.p(40) {
+            let victim = ids[t.choice(ids.len())];
+            let val = if t.coin() { 1.0 } else { 0.0 };
+            for v in inst.decision_variables.iter_mut() {
+                if v.id == victim && v.kind == KIND_BINARY {
+                    v.substituted_value = Some(val);
+                    ctx.label("binary-with-recorded-value");
+                }
+            }
         }
         // the list of decision variables is in no particular order
         {
